@@ -271,10 +271,11 @@ func init() {
 		ID: "C13",
 		Runs: []HarnessRun{
 			{Rel: "middleware/limiter", Dir: "limiter", Entry: "VH_C13_sequential", Cases: tierCases([]int{0, 9, 16, 25, 2, 20}, []int{0, 1, 2, 3, 4, 5, 8, 9, 10, 12, 16, 17, 18, 20, 24, 25, 26, 28}), Reach: []string{"admitted", "rejected"}, MaxPaths: 200000, ExtraPkgs: lim},
+			{Rel: "middleware/limiter", Dir: "limiter", Entry: "VH_C13_concurrent", Cases: tierCases([]int{0, 4, 12, 5}, []int{0, 1, 2, 4, 5, 6, 8, 12, 13, 14}), Reach: []string{"joined"}, MaxPaths: 200000, ExtraPkgs: lim, Repeat: 3},
 		},
 		Bounds: map[string]string{
-			"quick":    "fixed and sliding window, memory and external (stub) storage, skip options: histories of 3 requests over 2 keys, inter-arrival gaps 0..Expiration+1 s (solver-enumerated), per-request MaxFunc limit symbolic in 1..3, handler outcome symbolic; Expiration 2-3 s",
-			"thorough": "all algorithm x storage x skip combinations listed",
+			"quick":    "fixed and sliding window, memory and external (stub) storage, skip options: histories of 3 requests over 2 keys, inter-arrival gaps 0..Expiration+1 s (solver-enumerated), per-request MaxFunc limit symbolic in 1..3, handler outcome symbolic; Expiration 2-3 s; concurrent: 2 requests (3 in thorough) on one key with limit 1..2, every interleaving at lock acquisition / storage / handler boundaries",
+			"thorough": "all algorithm x storage x skip combinations listed; 3 concurrent requests",
 		},
 		Assumptions: []string{
 			"one virtual clock (seconds): utils.Timestamp and the stub storage read it; gaps are whole seconds",
